@@ -625,7 +625,7 @@ func scenarios(thorough bool) []scen {
 		// values much longer than one message, in both directions
 		for _, mult := range []int{2, 5} {
 			add(scen{Label: "long-both", RecvMTU: p.recv, SendMTU: p.send,
-				Owner: []oModSpec{{Name: "m1", Rounds: [][]msgSpec{{{Name: "blob", Size: mult*int(max(p.recv, 1300)) + 17, Seed: 1}, {Name: "go", Size: 2, Seed: 3}}}, Block: []bool{true}}},
+				Owner:  []oModSpec{{Name: "m1", Rounds: [][]msgSpec{{{Name: "blob", Size: mult*int(max(p.recv, 1300)) + 17, Seed: 1}, {Name: "go", Size: 2, Seed: 3}}}, Block: []bool{true}}},
 				Device: []dModSpec{baseDevice("m1", map[string][]msgSpec{"go": {{Name: "back", Size: mult*send + 11, Seed: 2, Splits: 4}, {Name: "t", Size: 1, Seed: 9}}}, nil)}})
 		}
 		// owner message sizes across every remainder of the owner's budget
@@ -737,9 +737,19 @@ func schedScenarios(thorough bool) []scen {
 			Device: []dModSpec{baseDevice("m1", map[string][]msgSpec{"go": {{Name: "r", Size: 1400, Seed: 2, Yield: true, Splits: 2}, {Name: "s", Size: 2, Seed: 3}}}, []msgSpec{{Name: "hello", Size: 2, Seed: 4}})}},
 	}
 	if thorough {
-		s = append(s, scen{Label: "sched-two-modules", RecvMTU: 1300, SendMTU: 1300,
-			Owner:  []oModSpec{{Name: "ghost"}, {Name: "m1", Rounds: [][]msgSpec{{{Name: "blob", Size: 1500, Seed: 1}, {Name: "go", Size: 3, Seed: 1}}}, Block: []bool{true}}},
-			Device: []dModSpec{baseDevice("m1", map[string][]msgSpec{"go": {{Name: "r", Size: 5, Seed: 2}}}, nil)}})
+		s = append(s,
+			scen{Label: "sched-two-modules", RecvMTU: 1300, SendMTU: 1300,
+				Owner:  []oModSpec{{Name: "ghost"}, {Name: "m1", Rounds: [][]msgSpec{{{Name: "blob", Size: 1500, Seed: 1}, {Name: "go", Size: 3, Seed: 1}}}, Block: []bool{true}}},
+				Device: []dModSpec{baseDevice("m1", map[string][]msgSpec{"go": {{Name: "r", Size: 5, Seed: 2}}}, nil)}},
+			scen{Label: "sched-exact-fill-then-yield", RecvMTU: 1300, SendMTU: 1300,
+				Owner:  []oModSpec{{Name: "m1", Rounds: [][]msgSpec{{{Name: "go", Size: 3, Seed: 1}}}}},
+				Device: []dModSpec{baseDevice("m1", map[string][]msgSpec{"go": {{Name: "first", Size: 1282, Seed: 2, Yield: true, Splits: 3}, {Name: "second", Size: 30, Seed: 3}}}, nil)}},
+			scen{Label: "sched-many-modules", RecvMTU: 1300, SendMTU: 1300, Extra: 120, ExtraLen: 12,
+				Owner:  []oModSpec{{Name: "m1", Rounds: [][]msgSpec{{{Name: "go", Size: 3, Seed: 1}}}}},
+				Device: []dModSpec{baseDevice("m1", map[string][]msgSpec{"go": {{Name: "r", Size: 5, Seed: 2}}}, nil)}},
+			scen{Label: "sched-done-with-last", RecvMTU: 1300, SendMTU: 1300,
+				Owner:  []oModSpec{{Name: "m1", Rounds: [][]msgSpec{{{Name: "go", Size: 3, Seed: 1}}, {{Name: "fin", Size: 2000, Seed: 1}}}, DoneWithLast: true}},
+				Device: []dModSpec{baseDevice("m1", map[string][]msgSpec{"go": {{Name: "r", Size: 5, Seed: 2}}, "fin": {{Name: "late", Size: 3, Seed: 2}}}, nil)}})
 	}
 	return s
 }
@@ -748,37 +758,38 @@ func schedulesShard(shard, n int, thorough bool) *schedshard.Report {
 	rep := &schedshard.Report{}
 	wd := newWorld()
 	for si, s := range schedScenarios(thorough) {
-		bound := 1
-		if thorough {
-			bound = 2
-		}
+		bound := 1 // two preemptions over ~700 scheduling points per run are out of reach; thorough adds scenarios instead
 		sc := schedshard.Scenario{Name: s.Label, Bound: bound, Outcomes: map[string]int{}}
+		var commit func() // committed by visit: once per execution over all shards
 		st := explore.ExploreShard(bound, shard, n, func(c *explore.Ctx) {
 			var o outcome
 			vres := vsync.Run(c.Choose, 200000, func() { o = wd.run(s) })
-			sc.Steps += int64(vres.Steps)
-			rep.Evals++
-			extra := map[string]any{"mode": "schedule", "choices": append([]int{}, c.Choices...), "preemptions": vres.Preempts, "scenario_index": si, "scenario": s}
-			v := func(key, what string) {
-				rep.Violations = append(rep.Violations, schedshard.Violation{Key: key, What: "[" + s.Label + "] " + what, Replay: extra})
+			clean := !vres.Deadlock && !vres.Livelock && len(vres.Panics) == 0
+			if !clean {
+				wd = newWorld()
 			}
-			switch {
-			case vres.Deadlock:
-				v("deadlock", fmt.Sprintf("deadlock: %v", vres.Blocked))
-				wd = newWorld()
-			case vres.Livelock:
-				v("livelock", "no termination within the step horizon")
-				wd = newWorld()
-			case len(vres.Panics) > 0:
-				v("panic:"+firstLine(vres.Panics[0]), vres.Panics[0])
-				wd = newWorld()
-			default:
-				for _, x := range judge(s, o) {
-					v(x.key, x.what)
+			commit = func() {
+				sc.Steps += int64(vres.Steps)
+				rep.Evals++
+				extra := map[string]any{"mode": "schedule", "choices": append([]int{}, c.Choices...), "preemptions": vres.Preempts, "scenario_index": si, "scenario": s}
+				v := func(key, what string) {
+					rep.Violations = append(rep.Violations, schedshard.Violation{Key: key, What: "[" + s.Label + "] " + what, Replay: extra})
 				}
+				switch {
+				case vres.Deadlock:
+					v("deadlock", fmt.Sprintf("deadlock: %v", vres.Blocked))
+				case vres.Livelock:
+					v("livelock", "no termination within the step horizon")
+				case len(vres.Panics) > 0:
+					v("panic:"+firstLine(vres.Panics[0]), vres.Panics[0])
+				default:
+					for _, x := range judge(s, o) {
+						v(x.key, x.what)
+					}
+				}
+				sc.Outcomes[fmt.Sprintf("err=%v calls=%d deadlock=%v panics=%d", o.err != nil, lenCalls(o), vres.Deadlock, len(vres.Panics))]++
 			}
-			sc.Outcomes[fmt.Sprintf("err=%v calls=%d deadlock=%v panics=%d", o.err != nil, lenCalls(o), vres.Deadlock, len(vres.Panics))]++
-		}, nil)
+		}, func(*explore.Ctx) { commit() })
 		sc.Executions, sc.MaxDepth = st.Executions, st.MaxDepth
 		rep.Diverged = append(rep.Diverged, st.Diverged...)
 		rep.Scenarios = append(rep.Scenarios, sc)
@@ -838,7 +849,7 @@ func main() {
 		schedulesShard(shard, n, tier == "thorough").Emit()
 	}
 	r = ev.Start("C16", "model_checking")
-	r.Rule("(A) every scenario of a grid run end to end through the real TO2 client, HTTP transport, handler and owner responders with scripted recording modules on both sides: MTU pairs (device receive, device send) x 0..200 device module names of several lengths; device reply sizes across EVERY remainder of the device's send budget (budget-70..budget+8) with/without yield and split writes; owner message sizes across every remainder of the owner's budget with/without IsMoreServiceInfo; values several messages long in both directions; module structures (two modules, owner-only module first/middle/alone, device-only modules, idle rounds, output on yield, done together with last data, empty module, no owner modules, no device modules). (B) the same run with the device's chunk.go/to2.go rewritten onto the cooperative scheduler: all interleavings of the device's module, chunking and transport threads with at most 1 (thorough 2) preemptions. Oracle: reference model computed from the script (stored devmod and module list; per-module streams after merging consecutive equal message names; activation before any callback; no callback on unaddressed modules; unknown module sees exactly active=false; owner modules produce in order and never after done; exactly one Done, last; TO2 returns nil).")
+	r.Rule("(A) every scenario of a grid run end to end through the real TO2 client, HTTP transport, handler and owner responders with scripted recording modules on both sides: MTU pairs (device receive, device send) x 0..200 device module names of several lengths; device reply sizes across EVERY remainder of the device's send budget (budget-70..budget+8) with/without yield and split writes; owner message sizes across every remainder of the owner's budget with/without IsMoreServiceInfo; values several messages long in both directions; module structures (two modules, owner-only module first/middle/alone, device-only modules, idle rounds, output on yield, done together with last data, empty module, no owner modules, no device modules). (B) the same run with the device's chunk.go/to2.go rewritten onto the cooperative scheduler: all interleavings of the device's module, chunking and transport threads with at most 1 preemption for 2 (thorough 6) scenarios. Oracle: reference model computed from the script (stored devmod and module list; per-module streams after merging consecutive equal message names; activation before any callback; no callback on unaddressed modules; unknown module sees exactly active=false; owner modules produce in order and never after done; exactly one Done, last; TO2 returns nil).")
 	if r.Replay != "" {
 		replay(r.Replay)
 		return
